@@ -125,6 +125,7 @@ form('delete-then-plus', { ops: ['+'] }, F => `(delete w.o${F.id()}?.s1.substrin
 // D7 seen from the outside: a function whose parameter default is instrumented is called while the calling expression
 // has live temporaries (both use the enclosing function's __datadog_*_0..)
 form('addassign-live-temps-across-default-param-call', { ops: ['+=', '+'] }, F => { const fn = F.loc(`function (x = ${F.s()} + ${F.f()}) { return x }`); return `w.o${F.id()}.p += ${fn}()` })
+form('addassign-live-temps-across-hoisted-fn-two-defaults', { ops: ['+=', '+', 'trim'] }, F => `(() => { const o = { msg: ${F.s()} }; o.msg += g(${F.s()}); function g(n, a = ${F.s()} + n.trim(), b = a + ${F.f()}) { return b } return o.msg })()`)
 form('plus-live-temps-across-class-field-init', { ops: ['+'] }, F => { const K = F.loc(`class { p = ${F.s()} + ${F.f()}; static q = \`\${${F.s()}}|\${${F.f()}}\` }`); return `${F.f()} + new ${K}().p + ${K}.q` })
 form('concat-live-temps-across-method-default-param-call', { ops: ['concat', '+'] }, F => { const o = F.loc(`{ m(x = ${F.s()} + ${F.f()}, y = x.trim()) { return x + y } }`); return `${F.f()}.concat(${o}.m(), ${F.s()})` })
 form('minus-only', { ops: [], instr: false }, F => `w.i${F.id()} - w.i${F.id()}`)
